@@ -137,6 +137,30 @@ def cmp_arcs_shape(ctx, rep, rule):
     tg = cells.tags(body, [b.idx for b in body.live_blocks()])
     rep.check(rule, "SnmpOid::cmp_arcs|by-sub-identifier", cells.has_call(tg, "::split_inclusive"),
               "compares sub-identifier by sub-identifier", "cmp_arcs no longer splits the encoding into sub-identifiers", body.loc(), obligation=True)
+    # the sub-identifiers are cut where BER cuts them: after every octet whose bit 8 is clear, for all 256 octet values
+    for sb in [b for b in body.calls() if (callee_path(b.term) or "").endswith("::split_inclusive") and len(b.term["args"]) > 1]:
+        ct = prov.operand(sb.term["args"][1])
+        cl = [x for x in flow.subterms(ct) if x[0] == "agg" and x[1] == "closure"]
+        cbody = facts.body(cl[0][2]) if cl else None
+        if cbody is None:
+            rep.inconclusive(rule, "SnmpOid::cmp_arcs|end-of-arc predicate", "the predicate of split_inclusive is not a closure of the crate", body.loc(sb.term["line"]))
+            continue
+        rt = flow.Prov(cbody).local(0)
+        bad = None
+        und = False
+        for v in range(256):
+            r = cells.eval_term(rt, lambda x, v=v: v if x in (("arg", 2), ("deref", ("arg", 2))) else None)
+            if not isinstance(r, int):
+                und = True
+                break
+            if bool(r) != ((v & 0x80) == 0):
+                bad = v if bad is None else bad
+        if und:
+            rep.inconclusive(rule, "SnmpOid::cmp_arcs|end-of-arc predicate", "predicate %s does not fold to a value per octet" % flow.fmt(rt)[:80], body.loc(sb.term["line"]))
+        else:
+            rep.check(rule, "SnmpOid::cmp_arcs|end-of-arc predicate", bad is None, "octet & 0x80 == 0 for all 256 octets",
+                      "sub-identifiers are split by %s, which differs from `bit 8 clear` at octet 0x%02x: that octet is glued to (or cut from) the "
+                      "next arc before the comparison" % (flow.fmt(rt)[:60], bad if bad is not None else 0), body.loc(sb.term["line"]), obligation=True)
     key = "SnmpOid::cmp_arcs|length-before-octets"
 
     def is_len_cmp(t):
